@@ -507,6 +507,55 @@ func init() {
 			return r
 		}
 	}
+	// --- bytes.NewReader / strings.NewReader / bytes.NewBuffer(String): a new object ------------------------------
+	for _, n := range []string{"bytes.NewReader", "strings.NewReader", "bytes.NewBuffer", "bytes.NewBufferString"} {
+		externalModels[n] = func(fr *Frame, callee *ssa.Function, args []Val, resT types.Type, st *State, reach string, pos token.Pos) Val {
+			return Val{T: resT, Term: fr.c.freshRef(st, "rdr")}
+		}
+	}
+	// (*bytes.Buffer).Bytes: the accumulated bytes (the slice aliases the buffer: its base is not fresh)
+	externalModels["(*bytes.Buffer).Bytes"] = func(fr *Frame, callee *ssa.Function, args []Val, resT types.Type, st *State, reach string, pos token.Pos) Val {
+		c := fr.c
+		recv := c.termOf(args[0])
+		fr.oblige("safety", "nil dereference "+c.eng.srcText(pos, "call"), reach, not(eq(recv, "0")), pos)
+		r := fr.havocVal(resT, "bufbytes")
+		if hn, hs, ok := bufField(c, callee); ok {
+			c.smt.assume(eq(app("sl_len", c.termOf(r)), app("sl_len", sel(c.heapGet(st, hn, hs), recv))), "Bytes() has the accumulated length")
+		}
+		return r
+	}
+	// --- fmt.Fprint(w, b) with w and b both *bytes.Buffer: w grows by the length of b (b.String() is written) ---
+	externalModels["fmt.Fprint"] = func(fr *Frame, callee *ssa.Function, args []Val, resT types.Type, st *State, reach string, pos token.Pos) Val {
+		c := fr.c
+		r := fr.havocVal(resT, "fprint")
+		bp := c.eng.prog.ImportedPackage("bytes")
+		idx := -1
+		var bt types.Type
+		if bp != nil {
+			bt = bp.Pkg.Scope().Lookup("Buffer").Type()
+			idx, _, _ = findField(bt, "buf")
+		}
+		if idx < 0 || len(args) != 2 || args[0].Term == "" || args[1].Term == "" {
+			for _, a := range args {
+				fr.havocPointee(a, st, 0)
+			}
+			return r
+		}
+		hn, hs := c.fieldHeap(bt, idx)
+		h0 := c.heapGet(st, hn, hs)
+		en, es := c.elemHeap(types.NewInterfaceType(nil, nil))
+		a0 := c.smt.define("fprint.arg", "Int", sel(sel(c.heapGet(st, en, es), app("sl_base", args[1].Term)), app("sl_off", args[1].Term)))
+		fr.havocPointee(args[0], st, 0) // the writer's state changes (operands are only read) ...
+		h1 := c.heapGet(st, hn, hs)
+		// ... and when writer and operand are both buffers, the accumulated length grows by the operand's length
+		c.smt.declareFun("iface_type", []string{"Int"}, "Int")
+		c.smt.declareFun("iface_payload", []string{"Int"}, "Int")
+		tag := fmt.Sprint(goTypeTag(types.NewPointer(bt)))
+		w, b := app("iface_payload", args[0].Term), app("iface_payload", a0)
+		cond := and(eq(app("iface_type", args[0].Term), tag), eq(app("sl_len", args[1].Term), "1"), eq(app("iface_type", a0), tag), not(eq(b, "0")))
+		c.smt.assume(implies(cond, and(eq(app("sl_len", sel(h1, w)), app("+", app("sl_len", sel(h0, w)), app("sl_len", sel(h0, b)))), implies(not(eq(w, b)), eq(sel(h1, b), sel(h0, b))))), "fmt.Fprint(buffer, buffer) appends the second buffer's bytes")
+		return r
+	}
 	// --- sync/atomic on integers: plain loads and stores (no interleavings are modelled) -------------------------
 	for _, ty := range []string{"Int32", "Int64", "Uint32", "Uint64"} {
 		ty := ty
